@@ -769,6 +769,7 @@ func (ndb *nodeDB) deleteVersionsTo(toVersion int64) error {
 			return err
 		}
 		ndb.resetFirstVersion(version + 1)
+		verifYield("prune:version")
 	}
 
 	return nil
